@@ -14,11 +14,25 @@ def shape(rng, did, n, mask, kinds="mixed", generics="none", style="none"):
         kind = "unit" if kinds == "unit" else rng.choice(["unit", "unit", "tuple", "named"])
         nf = 0 if kind == "unit" else rng.choice([1, 2])
         fs = SC.rand_fields(rng, kind, nf, generics)
-        vs.append(variant(IDS[i], kind, fs, dis=bool(mask[i])))
-    E = enum(did, vs, generics=generics, style=style)
+        v = variant(IDS[i], kind, fs, dis=bool(mask[i]))
+        decorate(rng, v)
+        vs.append(v)
+    E = enum(did, vs, generics=generics, style=style, split=rng.randrange(2))
     if kinds != "unit":
         SC.ensure_generic_use(rng, E)
     return E
+
+
+def decorate(rng, v):
+    """attributes other derives consume, so that `disabled` is met alone, inside a longer list and in a separate attribute"""
+    r = rng.random()
+    if r < 0.25:
+        v["msg"] = [[109]]
+    elif r < 0.45:
+        v["ser"] = [[120, 48 + rng.randrange(10)]]
+    elif r < 0.55:
+        v["docs"] = [[32, 100]]
+    return v
 
 
 def send_sync_check(E):
@@ -89,8 +103,10 @@ def lists_module(E):
 # --------------------------------------------------------------------------- EnumTable (C10)
 def table_def(did, mask, idents=None):
     idents = idents or IDS
-    vs = [variant(idents[i], dis=bool(m)) for i, m in enumerate(mask)]
-    return enum(did, vs)
+    import random as _r
+    rng = _r.Random(did * 7 + len(mask))
+    vs = [decorate(rng, variant(idents[i], dis=bool(m))) for i, m in enumerate(mask)]
+    return enum(did, vs, split=rng.randrange(2))
 
 
 def table_module(E, depth, steps):
